@@ -21,7 +21,7 @@ fn main() {
 mod imp {
     use cadence_macros::verif::{set_tracer, Access, AccessKind, Outcome, Tracer};
     use cadence_macros::SingletonHolder;
-    use cvh::{jobj, panics, Args, Json, Report, Violation};
+    use cvh::{jobj, panics, Args, Json, Report, Rng, Violation};
     use std::cell::Cell;
     use std::collections::BTreeMap;
     use std::sync::atomic::{AtomicU64, AtomicUsize, Ordering};
@@ -196,6 +196,12 @@ mod imp {
 
     /// Execute one schedule: `prefix` fixes the first choices, 0 afterwards.
     pub fn run_schedule(cfg: &Config, prefix: &[usize]) -> RunOut {
+        run_schedule_with(cfg, prefix, None)
+    }
+
+    /// As `run_schedule`; beyond the prefix the choice among the enabled threads is made by `chooser(step, enabled
+    /// thread ids)` when one is given (sampled schedules of configurations too large to enumerate).
+    pub fn run_schedule_with(cfg: &Config, prefix: &[usize], mut chooser: Option<&mut dyn FnMut(usize, &[usize]) -> usize>) -> RunOut {
         let n = cfg.len();
         let sched = Arc::new(Sched {
             st: Mutex::new(SchedState { turn: None, waiting: vec![false; n], finished: vec![false; n], running: n, trace: Vec::new(), cur_op: vec![OpKind::Get; n] }),
@@ -255,6 +261,8 @@ mod imp {
             } else if step >= MAX_STEPS {
                 cut = true;
                 step % enabled.len() // fair fallback for code that spins
+            } else if let Some(ch) = chooser.as_mut() {
+                ch(step, &enabled).min(enabled.len() - 1)
             } else {
                 0
             };
@@ -609,6 +617,164 @@ mod imp {
         out
     }
 
+
+    /// Judge one executed schedule with both oracles; returns (configuration name, schedule string).
+    fn judge(rep: &mut Report, args: &Args, cfg: &Config, out: &RunOut, stats: &mut VcStats, vc_enabled: &mut bool, overlap_loading: &mut u64) -> (String, String) {
+        let n = cfg.len();
+        let sched_s: String = out.choices.iter().map(|(c, _)| c.to_string()).collect::<Vec<_>>().join(".");
+        let name = config_name(cfg);
+        // how many schedules had a reader's load while the state was LOADING (value 1)
+        if out.trace.iter().any(|e| matches!(e, TEvent::Access { in_op, outcome: Outcome::Loaded(1), .. } if *in_op != OpKind::Set)) {
+            *overlap_loading += 1;
+        }
+        let report = |rep: &mut Report, f: Finding, observer: &str| {
+            rep.violation(Violation {
+                property: "C18".into(),
+                rule: f.rule.into(),
+                class: f.class.into(),
+                detail: format!("[{}: {} | schedule {}] {}", observer, name, sched_s, f.detail),
+                replay_args: args.to_vec_with(&[("mode", "enum".into()), ("config", name.clone()), ("schedule", sched_s.clone()), ("max-schedules", "1".into())]),
+                trace: jobj! {"configuration" => name.as_str(), "schedule" => sched_s.as_str(), "trace" => trace_json(&out.trace)},
+            });
+        };
+        if let Some(f) = value_oracle(out) {
+            report(rep, f, "value oracle");
+        }
+        // vector clocks need to see the synchronisation: every set must have produced atomic events
+        let set_ops = out.trace.iter().filter(|e| matches!(e, TEvent::OpBegin { op: OpKind::Set, .. })).count();
+        let set_atomics = out.trace.iter().filter(|e| matches!(e, TEvent::Access { in_op: OpKind::Set, access, .. } if !matches!(access.kind, AccessKind::CellGet))).count();
+        if set_ops > 0 && set_atomics == 0 {
+            *vc_enabled = false;
+        }
+        if *vc_enabled {
+            if let Some(f) = vc_check(n, &out.trace, stats) {
+                report(rep, f, "vector clocks");
+            }
+        }
+        if out.cut {
+            rep.obs("schedules_cut_at_step_bound", 1);
+        }
+        // distinct: (configuration, schedule) and outcome vectors
+        rep.distinct(&format!("{}#{}", name, sched_s));
+        if rep.want_sample() {
+            rep.sample(|| jobj! {"configuration" => name.as_str(), "schedule" => sched_s.as_str(), "trace" => trace_json(&out.trace)});
+        }
+        (name, sched_s)
+    }
+
+    fn parse_config(name: &str) -> Option<Config> {
+        let mut cfg = Vec::new();
+        for th in name.split(" | ") {
+            let mut ops = Vec::new();
+            for o in th.split(';') {
+                ops.push(match o.trim() {
+                    "set" => OpKind::Set,
+                    "get" => OpKind::Get,
+                    "is_set" => OpKind::IsSet,
+                    _ => return None,
+                });
+            }
+            cfg.push(ops);
+        }
+        Some(cfg)
+    }
+
+    /// Sampled schedules of configurations that are too large to enumerate: 2-4 threads, up to 4 operations per
+    /// thread, three scheduling strategies (uniform, sticky, priority with change points).
+    fn sample_main(args: &Args, rep: &mut Report) {
+        let seed = args.u64("seed", 1);
+        let shard = args.u64("shard", 0);
+        let runs = args.u64("runs", 2000);
+        let per_cfg = args.u64("schedules-per-config", 40);
+        let mut rng = Rng::new(cvh::rng::mix(&[seed, shard, 0xC18]));
+        let mut stats = VcStats { hb_edges: 0, cell_accesses: 0, atomic_events: 0 };
+        let mut vc_enabled = true;
+        let mut overlap_loading = 0u64;
+        let mut done = 0u64;
+        while done < runs && rep.violation_count < 6 {
+            // configuration
+            let n = match rng.below(10) {
+                0..=1 => 2,
+                2..=6 => 3,
+                _ => 4,
+            };
+            let mut cfg: Config = Vec::new();
+            let max_ops = if n == 2 { 4 } else if n == 3 { 3 } else { 2 };
+            for _ in 0..n {
+                let k = 1 + rng.usize_below(max_ops);
+                let mut ops = Vec::new();
+                for _ in 0..k {
+                    ops.push(match rng.below(20) {
+                        0..=6 => OpKind::Set,
+                        7..=14 => OpKind::Get,
+                        _ => OpKind::IsSet,
+                    });
+                }
+                cfg.push(ops);
+            }
+            if !cfg.iter().flatten().any(|o| *o == OpKind::Set) && !rng.chance(1, 10) {
+                cfg[0][0] = OpKind::Set;
+            }
+            rep.obs(&format!("sampled_configurations_with_{}_threads", n), 1);
+            rep.obs_max("max_operations_per_thread_in_sampled_configurations", cfg.iter().map(|o| o.len()).max().unwrap_or(0) as u64);
+            rep.fine("sampled_configurations", &config_name(&cfg));
+            for k in 0..per_cfg {
+                let strategy = rng.below(3);
+                let mut r2 = rng.fork();
+                let mut last: Option<usize> = None;
+                // priorities for the PCT-like strategy: a random permutation and up to 3 change points
+                let mut prio: Vec<u64> = (0..n).map(|_| r2.next_u64() >> 8).collect();
+                let change_at: Vec<usize> = (0..3).map(|_| r2.usize_below(40)).collect();
+                let mut chooser = |step: usize, enabled: &[usize]| -> usize {
+                    match strategy {
+                        0 => r2.usize_below(enabled.len()),
+                        1 => {
+                            // sticky: keep the thread that ran last with probability 3/4
+                            if let Some(l) = last {
+                                if let Some(pos) = enabled.iter().position(|t| *t == l) {
+                                    if r2.chance(3, 4) {
+                                        return pos;
+                                    }
+                                }
+                            }
+                            let c = r2.usize_below(enabled.len());
+                            last = Some(enabled[c]);
+                            c
+                        }
+                        _ => {
+                            if change_at.contains(&step) {
+                                // the running (highest-priority) thread is demoted
+                                if let Some(top) = enabled.iter().max_by_key(|t| prio[**t]) {
+                                    prio[*top] = r2.next_u64() >> 40;
+                                }
+                            }
+                            let top = enabled.iter().enumerate().max_by_key(|(_, t)| prio[**t]).map(|(i, _)| i).unwrap_or(0);
+                            top
+                        }
+                    }
+                };
+                USE_DEFAULT_CTOR.store(k % 2 == 1, Ordering::Relaxed);
+                let out = run_schedule_with(&cfg, &[], Some(&mut chooser));
+                rep.eval();
+                done += 1;
+                judge(rep, args, &cfg, &out, &mut stats, &mut vc_enabled, &mut overlap_loading);
+                rep.obs(["sampled_schedules_uniform", "sampled_schedules_sticky", "sampled_schedules_priority_change_points"][strategy as usize], 1);
+                rep.obs(if k % 2 == 0 { "schedules_on_new_constructed_holder" } else { "schedules_on_default_constructed_holder" }, 1);
+                if rep.violation_count >= 6 {
+                    break;
+                }
+            }
+            rep.obs("configurations_explored", 1);
+        }
+        rep.obs("schedules_with_reader_overlapping_LOADING", overlap_loading);
+        rep.obs("hb_edges_established", stats.hb_edges);
+        rep.obs("cell_accesses_checked", stats.cell_accesses);
+        rep.obs("atomic_events_traced", stats.atomic_events);
+        rep.obs("vector_clock_observer_enabled", vc_enabled as u64);
+        rep.exhaustive = Some(false);
+        rep.note("sampled mode: random configurations of 2-4 threads with up to 4 / 3 / 2 operations per thread, schedules drawn by three strategies (uniform, sticky, priorities with change points); every schedule is replayable by its choice string");
+    }
+
     fn trace_json(t: &[TEvent]) -> Json {
         Json::Arr(t.iter().map(|e| Json::Str(e.short())).collect())
     }
@@ -621,7 +787,19 @@ mod imp {
         let shards = args.u64("shards", 1);
         let max_schedules = args.u64("max-schedules", 5000);
         let level = args.str("level", "core");
-        let cfgs = configurations(&level);
+        if args.str("mode", "enum") == "sample" {
+            sample_main(&args, &mut rep);
+            std::process::exit(rep.finish(args.get("out")));
+        }
+        let mut cfgs = configurations(&level);
+        // a replayed configuration may come from the sampled mode and lie outside the enumerated list
+        if let Some(rc) = args.get("config") {
+            if !cfgs.iter().any(|c| config_name(c) == rc) {
+                if let Some(c) = parse_config(rc) {
+                    cfgs.push(c);
+                }
+            }
+        }
         let mut stats = VcStats { hb_edges: 0, cell_accesses: 0, atomic_events: 0 };
         let mut all_complete = true;
         let mut vc_enabled = true;
@@ -634,7 +812,7 @@ mod imp {
             } else if ci as u64 % shards != shard {
                 continue;
             }
-            let n = cfg.len();
+            let _ = cfg.len();
             let mut prefix: Vec<usize> = args.get("schedule").map(|s| s.split('.').filter(|x| !x.is_empty()).map(|x| x.parse().unwrap()).collect()).unwrap_or_default();
             let mut count = 0u64;
             let mut overlap_loading = 0u64;
@@ -644,45 +822,9 @@ mod imp {
                 let out = run_schedule(cfg, &prefix);
                 count += 1;
                 rep.eval();
-                let sched_s: String = out.choices.iter().map(|(c, _)| c.to_string()).collect::<Vec<_>>().join(".");
-                let name = config_name(cfg);
-                // how many schedules had a reader's load while the state was LOADING (value 1)
-                if out.trace.iter().any(|e| matches!(e, TEvent::Access { in_op, outcome: Outcome::Loaded(1), .. } if *in_op != OpKind::Set)) {
-                    overlap_loading += 1;
-                }
-                let mut report = |rep: &mut Report, f: Finding, observer: &str| {
-                    rep.violation(Violation {
-                        property: "C18".into(),
-                        rule: f.rule.into(),
-                        class: f.class.into(),
-                        detail: format!("[{}: {} | schedule {}] {}", observer, name, sched_s, f.detail),
-                        replay_args: args.to_vec_with(&[("config", name.clone()), ("schedule", sched_s.clone()), ("max-schedules", "1".into())]),
-                        trace: jobj! {"configuration" => name.as_str(), "schedule" => sched_s.as_str(), "trace" => trace_json(&out.trace)},
-                    });
-                };
-                if let Some(f) = value_oracle(&out) {
-                    report(&mut rep, f, "value oracle");
-                }
-                // vector clocks need to see the synchronisation: every set must have produced atomic events
-                let set_ops = out.trace.iter().filter(|e| matches!(e, TEvent::OpBegin { op: OpKind::Set, .. })).count();
-                let set_atomics = out.trace.iter().filter(|e| matches!(e, TEvent::Access { in_op: OpKind::Set, access, .. } if !matches!(access.kind, AccessKind::CellGet))).count();
-                if set_ops > 0 && set_atomics == 0 {
-                    vc_enabled = false;
-                }
-                if vc_enabled {
-                    if let Some(f) = vc_check(n, &out.trace, &mut stats) {
-                        report(&mut rep, f, "vector clocks");
-                    }
-                }
-                if out.cut {
-                    rep.obs("schedules_cut_at_step_bound", 1);
-                }
-                // distinct: (configuration, schedule) and outcome vectors
-                rep.distinct(&format!("{}#{}", name, sched_s));
+                let (name, sched_s) = judge(&mut rep, &args, cfg, &out, &mut stats, &mut vc_enabled, &mut overlap_loading);
                 rep.obs(if count % 2 == 0 { "schedules_on_default_constructed_holder" } else { "schedules_on_new_constructed_holder" }, 1);
-                if rep.want_sample() {
-                    rep.sample(|| jobj! {"configuration" => name.as_str(), "schedule" => sched_s.as_str(), "trace" => trace_json(&out.trace)});
-                }
+                let _ = (&name, &sched_s);
                 if replay_cfg.is_some() && args.get("schedule").is_some() {
                     break;
                 }
